@@ -284,7 +284,7 @@ func c06Child(c *mon.Child) {
 		r := c.RNG("inputs", h.ID)
 		smp := gram.NewSampler(g, r)
 		gdesc := trunc(g.String(), 700)
-		for ii, toks := range smp.Inputs(nInputs) {
+		for ii, toks := range append(featInputs(g), smp.Inputs(nInputs)...) {
 			key := fmt.Sprintf("%s.i%d", h.ID, ii)
 			if !c.Want(key) {
 				continue
@@ -433,7 +433,7 @@ func init() {
 		Batches:     func(t string) int { return pick(t, 4, 16) },
 		Floor:       func(t string) int { return pick(t, 5000, 50000) },
 		TimeoutSec:  func(t string) int { return pick(t, 900, 3600) },
-		Prepare: gramPrepareEx("C06", func(t string) int { return pick(t, 60, 150) }, c06Opts, nil, false, func(dir string) error {
+		Prepare: gramPrepareEx("C06", func(t string) int { return pick(t, 60, 150) }, c06Opts, witnessExtra, false, func(dir string) error {
 			_, err := gram.EmitExamples(dir, c06Examples)
 			return err
 		}),
